@@ -186,37 +186,34 @@ impl Request {
 //@fn src/request.rs new_request ret res props C03,C09,C11,C13,C14,C15,C16,C18
 //@spec
     ensures
-        match res {
-            // C10/C18: an Expect value other than 100-continue (any letter case) is refused, nothing else is
-            Err(RequestCreationError::ExpectationFailed) => !f_expect_ok(headers@),
-            // O-CL-STRICT (C16): a Content-Length that is not a plain decimal number is refused, never interpreted or ignored
-            Err(RequestCreationError::InvalidContentLength) => f_cl_bad(headers@),
-            // C15: the only I/O failure is a buffered small body that the source cannot supply in full
-            Err(RequestCreationError::CreationIoError(e)) => f_expect_ok(headers@) && !f_cl_bad(headers@) && f_buffered(headers@),
-            Ok(rq) => {
-                &&& f_expect_ok(headers@) && !f_cl_bad(headers@)
-                // O-FRAMING (C03): the readable body is exactly what the framing designates ...
-                &&& rq.has_body_reader() && rq.body() == f_body(headers@, source_data.stream())
-                // O-REL-1 (C09): a reader that keeps the source hands it on exactly at the end of the body when it is
-                // dropped, however much of the body was read (with O-REL-2 / O-DRAIN / O-FUSED-DRAIN of U-READERS)
-                &&& !f_upgrade(headers@) && !f_buffered(headers@) && ((f_cl(headers@) is Some && f_cl(headers@)->Some_0 > 0 && source_data.stream().len() >= f_cl(headers@)->Some_0) || (f_cl(headers@) is None && f_te(headers@)))
-                        ==> rq.body_release() == source_data.stream().skip(f_body_end(headers@, source_data.stream()))
-                // C15: a request whose buffered small body was incomplete is never delivered
-                &&& f_buffered(headers@) ==> source_data.stream().len() >= f_cl(headers@)->Some_0
-                // O-READAHEAD (C11): a request with no body or a small one (not awaiting 100-continue) does not keep the source
-                &&& !f_upgrade(headers@) && (f_buffered(headers@) || f_cl(headers@) == Some(0usize) || (f_cl(headers@) is None && !f_te(headers@))) ==> !rq.keeps_source()
-                // ... the declared length is reported exactly when Content-Length decided
-                &&& rq.declared_len() == f_cl(headers@)
-                // C18: the interim-response flag
-                &&& rq.pending_continue() == f_continue(headers@)
-                // C06: the slot starts occupied; C02-ish frame: everything else is handed over untouched
-                &&& !rq.answered()
-                &&& rq.hdrs() == headers@
-                &&& rq.head_is(secure, method, path, version, remote_addr)
-            },
-        },
+        // C10/C18: an Expect value other than 100-continue (any letter case) is refused, nothing else is
+        res is Err && res->Err_0 is ExpectationFailed ==> !f_expect_ok(headers@),   // [C10,C18]
+        res is Ok ==> f_expect_ok(headers@),   // [C10,C18]
+        // O-CL-STRICT (C16): a Content-Length that is not a plain decimal number is refused, never interpreted or ignored
+        res is Err && res->Err_0 is InvalidContentLength ==> f_cl_bad(headers@),   // [C16]
+        res is Ok ==> !f_cl_bad(headers@),   // [C16]
+        // C15: the only I/O failure is a buffered small body that the source cannot supply in full ...
+        res is Err && res->Err_0 is CreationIoError ==> f_expect_ok(headers@) && !f_cl_bad(headers@) && f_buffered(headers@),   // [C15]
+        // ... and a request whose buffered small body was incomplete is never delivered
+        res is Ok && f_buffered(headers@) ==> source_data.stream().len() >= f_cl(headers@)->Some_0,   // [C15]
+        // O-FRAMING (C03): the readable body is exactly what the framing designates ...
+        res is Ok ==> res->Ok_0.has_body_reader() && res->Ok_0.body() == f_body(headers@, source_data.stream()),   // [C03,C13]
+        // ... the declared length is reported exactly when Content-Length decided
+        res is Ok ==> res->Ok_0.declared_len() == f_cl(headers@),   // [C03]
+        // O-REL-1 (C09): a reader that keeps the source hands it on exactly at the end of the body when it is
+        // dropped, however much of the body was read (with O-REL-2 / O-DRAIN / O-FUSED-DRAIN of U-READERS)
+        res is Ok && !f_upgrade(headers@) && !f_buffered(headers@) && ((f_cl(headers@) is Some && f_cl(headers@)->Some_0 > 0 && source_data.stream().len() >= f_cl(headers@)->Some_0) || (f_cl(headers@) is None && f_te(headers@)))
+                ==> res->Ok_0.body_release() == source_data.stream().skip(f_body_end(headers@, source_data.stream())),   // [C09]
+        // O-READAHEAD (C11): a request with no body or a small one (not awaiting 100-continue) does not keep the source
+        res is Ok && !f_upgrade(headers@) && (f_buffered(headers@) || f_cl(headers@) == Some(0usize) || (f_cl(headers@) is None && !f_te(headers@))) ==> !res->Ok_0.keeps_source(),   // [C11]
+        // C18: the interim-response flag
+        res is Ok ==> res->Ok_0.pending_continue() == f_continue(headers@),   // [C18]
+        // C06: the slot starts occupied
+        res is Ok ==> !res->Ok_0.answered(),   // [C06]
+        // frame: everything else is handed over untouched
+        res is Ok ==> res->Ok_0.hdrs() == headers@ && res->Ok_0.head_is(secure, method, path, version, remote_addr),   // [C03,C10,C12]
 //@after 1 let transfer_encoding
-    proof {
+    proof {   // [C03,C09,C11,C13]
         let name = "Transfer-Encoding"@;
         if transfer_encoding is Some {
             let i = choose|i: int| 0 <= i < headers@.len() && hdr_is(#[trigger] headers@[i], name) && headers@[i].value == transfer_encoding->Some_0
@@ -229,7 +226,7 @@ impl Request {
         assert(f_te(headers@) == (transfer_encoding is Some));
     }
 //@before? 1 return Err(RequestCreationError::InvalidContentLength)
-                proof {
+                proof {   // [C16]
                     // sign-prefixed value: not a plain decimal number
                     let name = "Content-Length"@;
                     let i = choose|i: int| 0 <= i < headers@.len() && hdr_is(#[trigger] headers@[i], name) && headers@[i].value@ == v@
@@ -238,7 +235,7 @@ impl Request {
                     assert(!is_digit('+'));
                 }
 //@before? 2 return Err(RequestCreationError::InvalidContentLength)
-                proof {
+                proof {   // [C16]
                     // anything usize::from_str refuses (empty, non-digit, mixed, list, overflowing)
                     let name = "Content-Length"@;
                     let i = choose|i: int| 0 <= i < headers@.len() && hdr_is(#[trigger] headers@[i], name) && headers@[i].value@ == v@
@@ -246,7 +243,7 @@ impl Request {
                     lemma_first(headers@, name, i);
                 }
 //@after 1 let content_length
-    proof {
+    proof {   // [C03,C09,C11,C13,C14,C16]
         let name = "Content-Length"@;
         if transfer_encoding is None {
             if exists|i: int| 0 <= i < headers@.len() && hdr_is(#[trigger] headers@[i], name) {
@@ -263,14 +260,14 @@ impl Request {
         assert(content_length == f_cl(headers@) && !f_cl_bad(headers@));
     }
 //@before 1 return Err ( RequestCreationError :: ExpectationFailed )
-                proof {
+                proof {   // [C10,C18]
                     let name = "Expect"@;
                     let i = choose|i: int| 0 <= i < headers@.len() && hdr_is(#[trigger] headers@[i], name) && !eq_ic(headers@[i].value@, "100-continue"@)
                         && forall|j: int| 0 <= j < i ==> !hdr_is(#[trigger] headers@[j], name);
                     lemma_first(headers@, name, i);
                 }
 //@after 1 let expects_continue
-    proof {
+    proof {   // [C10,C18,C11]
         let name = "Expect"@;
         if exists|i: int| 0 <= i < headers@.len() && hdr_is(#[trigger] headers@[i], name) {
             let i = choose|i: int| 0 <= i < headers@.len() && hdr_is(#[trigger] headers@[i], name) && eq_ic(headers@[i].value@, "100-continue"@) && expects_continue
@@ -283,7 +280,7 @@ impl Request {
         assert(f_expect_ok(headers@) && expects_continue == f_continue(headers@));
     }
 //@after 1 let connection_upgrade
-    proof {
+    proof {   // [C03,C09,C11]
         let name = "Connection"@;
         if exists|i: int| 0 <= i < headers@.len() && hdr_is(#[trigger] headers@[i], name) {
             let i = choose|i: int| 0 <= i < headers@.len() && hdr_is(#[trigger] headers@[i], name)
@@ -297,7 +294,7 @@ impl Request {
         assert(connection_upgrade == f_upgrade(headers@));
     }
 //@after 1 let reader
-    proof {
+    proof {   // [C03,C13]
         assert(src0.take(0) =~= Seq::<u8>::empty());
         assert(dyn_stream(&reader) =~= f_body(headers@, src0));
     }
